@@ -13,6 +13,8 @@ package main
 import (
 	"fmt"
 	"os"
+	"strings"
+	"time"
 
 	"github.com/0chain/common/core/logging"
 	"go.uber.org/zap"
@@ -25,6 +27,18 @@ func main() {
 	if len(os.Args) < 2 {
 		fmt.Fprintln(os.Stderr, "usage: store <C08|C10|C20|C25|C26> <quick|thorough>")
 		os.Exit(2)
+	}
+	if strings.HasPrefix(os.Args[1], "worker-") {
+		// a worker never outlives its parent (e.g. when a check run is killed)
+		parent := os.Getppid()
+		go func() {
+			for {
+				time.Sleep(time.Second)
+				if os.Getppid() != parent {
+					os.Exit(3)
+				}
+			}
+		}()
 	}
 	switch os.Args[1] {
 	case "C08":
